@@ -277,9 +277,15 @@ pub fn gen_proto(r: &mut Rng, cfg: &ProtoCfg) -> Vec<Rec> {
             }
         }
         if r.chance(1, 4) {
-            for i in [ROW, COL] {
+            // usually both, sometimes only one of the two (the writer's rules allow either alone)
+            let which: &[u8] = match r.below(4) {
+                0 => &[ROW],
+                1 => &[COL],
+                _ => &[ROW, COL],
+            };
+            for i in which {
                 let (min, max) = gen_int_range(r);
-                recs.push(Rec { name: Name::Std(i), dt: DType::Int { min, max } });
+                recs.push(Rec { name: Name::Std(*i), dt: DType::Int { min, max } });
             }
         }
         if r.chance(1, 5) {
@@ -749,7 +755,10 @@ pub fn gen_program(run_seed: u64, cfg: &ProgCfg) -> Program {
                     steps.push(PcStep::Set(f.clone()));
                 }
                 let end = if cfg.allow_abandon && r.chance(1, 8) { SubEnd::Abandon } else { SubEnd::Finalize };
-                calls.push(Call::Pc { guid: gen_guid(&mut r), proto, steps, end });
+                // GUIDs are not checked for uniqueness by writer or reader: now and then two clouds share one
+                let prev: Vec<String> = calls.iter().filter_map(|c| if let Call::Pc { guid, .. } = c { Some(guid.clone()) } else { None }).collect();
+                let guid = if !prev.is_empty() && r.chance(1, 12) { r.pick(&prev).clone() } else { gen_guid(&mut r) };
+                calls.push(Call::Pc { guid, proto, steps, end });
             }
             1 => {
                 let mut len = gen_blob_len(&mut r);
